@@ -1859,8 +1859,10 @@ class BootstrapElectionModel(BaseElectionModel):
             # how many states have lower_q (or more) realizations with GOP victory
             lower_states = np.mean(agg_pred_margin_dist < 0, axis=1) > lower_q
 
-            potential_losses = pred_states - (~lower_states).astype(int)
-            potential_gains = upper_states.astype(int) - pred_states
+            # a contest that is already predicted for the other party cannot be lost (or gained) once more,
+            # otherwise the bounds could end up on the wrong side of the prediction
+            potential_losses = np.maximum(pred_states - (~lower_states).astype(int), 0)
+            potential_gains = np.maximum(upper_states.astype(int) - pred_states, 0)
 
         if self.called_contests is not None:
             # if there is a call, there is no uncertainty in the outcome
